@@ -134,8 +134,8 @@ Proof.
   - destruct (load_plugin_module lower world n 0); try exact Hw.
     pose proof (load_plugin_class_wf s p false o Hx Hw) as H.
     destruct (load_plugin_class lower s p false o). exact H.
-  - unfold owner_load. destruct (get_callback lower (s_cbs s) n); [exact Hw|].
-    destruct (load_plugin_module lower world n imp); try exact Hw.
+  - unfold owner_load. cbv zeta. destruct (get_callback lower (s_cbs s) (strip_py n)); [exact Hw|].
+    destruct (load_plugin_module lower world (strip_py n) imp); try exact Hw.
     pose proof (load_plugin_class_wf s p initf o Hx Hw) as H.
     destruct (load_plugin_class lower s p initf o). exact H.
   - unfold owner_unload. destruct (is_owner lower n); [exact Hw|].
@@ -160,7 +160,7 @@ Proof.
         -- constructor. exact IH.
       * rewrite <- Eb. apply Forall_forall. intros c Hc. apply filter_In in Hc as [Hc _].
         destruct Hw as [_ [_ H3]]. rewrite Forall_forall in H3. auto. }
-    destruct (load_plugin_module lower world n imp).
+    destruct (reload_module lower world n imp).
     + pose proof (load_plugin_class_wf (St good (s_next s) (s_dead s ++ ids (b0 :: bt))) p initf o Hx Hg) as H.
       destruct (load_plugin_class lower (St good (s_next s) (s_dead s ++ ids (b0 :: bt))) p initf o). exact H.
     + destruct (readd lower o good (b0 :: bt)) as [r res]. exact Hre.
@@ -255,8 +255,8 @@ Proof.
   - destruct (load_plugin_module lower world n 0); try exact Hh.
     pose proof (load_plugin_class_owner s p false o Hx Hw Hh) as H.
     destruct (load_plugin_class lower s p false o). exact H.
-  - unfold owner_load. destruct (get_callback lower (s_cbs s) n); [exact Hh|].
-    destruct (load_plugin_module lower world n imp); try exact Hh.
+  - unfold owner_load. cbv zeta. destruct (get_callback lower (s_cbs s) (strip_py n)); [exact Hh|].
+    destruct (load_plugin_module lower world (strip_py n) imp); try exact Hh.
     pose proof (load_plugin_class_owner s p initf o Hx Hw Hh) as H.
     destruct (load_plugin_class lower s p initf o). exact H.
   - unfold owner_unload. destruct (is_owner lower n) eqn:Eo; [exact Hh|].
@@ -284,7 +284,7 @@ Proof.
         -- constructor. exact IH.
       * rewrite <- Eb. apply Forall_forall. intros c Hc. apply filter_In in Hc as [Hc _].
         destruct Hw as [_ [_ H3]]. rewrite Forall_forall in H3. auto. }
-    destruct (load_plugin_module lower world n imp).
+    destruct (reload_module lower world n imp).
     + pose proof (load_plugin_class_owner (St good (s_next s) (s_dead s ++ ids (b0 :: bt))) p initf o Hx Hg Hhg) as H.
       destruct (load_plugin_class lower (St good (s_next s) (s_dead s ++ ids (b0 :: bt))) p initf o). exact H.
     + destruct (readd lower o good (b0 :: bt)) as [r res]. exact Hre.
